@@ -102,6 +102,7 @@ var props = map[string]propCfg{
 
 func fatal2(format string, a ...any) {
 	fmt.Fprintf(os.Stderr, "verif: "+format+"\n", a...)
+	removeBinaries()
 	os.Exit(2)
 }
 
@@ -139,12 +140,14 @@ func build(race bool, withBcl bool) string {
 	if b, err := os.ReadFile(filepath.Join(repoDir, "go.sum")); err == nil && repoDir == "/repo" {
 		os.WriteFile(filepath.Join(harness, "go.sum"), b, 0o644)
 	}
-	out := filepath.Join(buildDir, "sim.test")
+	// one binary per invocation: two checks may run side by side on the same tree
+	out := filepath.Join(buildDir, fmt.Sprintf("sim-%d.test", os.Getpid()))
 	args := []string{"test", "-c", "-o", out}
 	if race {
-		out = filepath.Join(buildDir, "sim.race.test")
+		out = filepath.Join(buildDir, fmt.Sprintf("sim-%d.race.test", os.Getpid()))
 		args = []string{"test", "-c", "-race", "-o", out}
 	}
+	builtBinaries = append(builtBinaries, out)
 	args = append(args, modfileArgs()...)
 	args = append(args, "./sim")
 	cmd := exec.Command(goTool(), args...)
@@ -154,7 +157,9 @@ func build(race bool, withBcl bool) string {
 		fatal2("cannot build the worker against /repo (this is not a property violation):\n%s", b)
 	}
 	if withBcl {
-		bargs := append([]string{"build", "-o", filepath.Join(buildDir, "bcl")}, modfileArgs()...)
+		bclBin = filepath.Join(buildDir, fmt.Sprintf("bcl-%d", os.Getpid()))
+		builtBinaries = append(builtBinaries, bclBin)
+		bargs := append([]string{"build", "-o", bclBin}, modfileArgs()...)
 		cmd := exec.Command(goTool(), append(bargs, "github.com/wkhere/bcl/cmd/bcl")...)
 		cmd.Dir = harness
 		cmd.Env = goEnv()
@@ -163,6 +168,15 @@ func build(race bool, withBcl bool) string {
 		}
 	}
 	return out
+}
+
+var builtBinaries []string
+var bclBin string
+
+func removeBinaries() {
+	for _, b := range builtBinaries {
+		os.Remove(b)
+	}
 }
 
 // ---- known findings
@@ -231,7 +245,7 @@ func (r *runner) workerCmd(env ...string) *exec.Cmd {
 	cmd := exec.Command(r.bin, "-test.run", "^TestWorker$", "-test.timeout", "0", "-test.count", "1")
 	cmd.Env = append(os.Environ(),
 		"VERIF_PROP="+r.prop, "VERIF_TIER="+r.tier, "VERIF_SEED="+strconv.FormatUint(r.seed, 10),
-		"VERIF_BCL_BIN="+filepath.Join(buildDir, "bcl"), "VERIF_DIR="+verifDir, "VERIF_TMP="+r.tmp,
+		"VERIF_BCL_BIN="+bclBin, "VERIF_DIR="+verifDir, "VERIF_TMP="+r.tmp,
 		"GORACE=halt_on_error=0 history_size=2")
 	if !r.cfg.Race {
 		cmd.Env = append(cmd.Env, "VERIF_AS_LIMIT_MB=8192") // not for -race binaries: the detector reserves terabytes of address space
@@ -669,19 +683,26 @@ func main() {
 	case "setup":
 		build(false, true)
 		build(true, false)
-		fmt.Println("setup: worker binaries built")
+		removeBinaries() // setup only warms the build cache
+		fmt.Println("setup: build cache warmed (plain and -race worker, cmd/bcl)")
 	case "run":
 		if len(os.Args) < 4 {
 			fatal2("usage: verif run <Cnn> <quick|thorough>")
 		}
-		os.Exit(runCheck(os.Args[2], os.Args[3]))
+		rc := runCheck(os.Args[2], os.Args[3])
+		removeBinaries()
+		os.Exit(rc)
 	case "replay":
 		if len(os.Args) < 3 {
 			fatal2("usage: verif replay <file>")
 		}
-		os.Exit(replay(os.Args[2]))
+		rc := replay(os.Args[2])
+		removeBinaries()
+		os.Exit(rc)
 	case "selftest":
-		os.Exit(selftest(os.Args[2:]))
+		rc := selftest(os.Args[2:])
+		removeBinaries()
+		os.Exit(rc)
 	default:
 		fatal2("unknown command %q", os.Args[1])
 	}
